@@ -15,3 +15,5 @@ import Tibc.Expect.Eth
 #print axioms Tibc.C18.one_chain_step
 #print axioms Tibc.C18.one_chain
 #print axioms Tibc.C18.same_root_breaks_one_chain
+#print axioms Tibc.C18.pruning_keeps_one_chain
+#print axioms Tibc.C18.created_rootHeights
